@@ -149,6 +149,45 @@ class HEvent:
         return self.flag
 
 
+class HLock:
+    """cooperative threading.Lock: acquire / release are scheduling points"""
+
+    def __init__(self):
+        self.owner: Optional[HThread] = None
+        self.sched = SCHED
+        SCHED.locks.append(self)
+
+    def acquire(self, blocking=True, timeout=-1):
+        s = self.sched
+        me = s.current()
+        s.point(me, "lock-acquire")
+        while self.owner is not None:
+            if not blocking:
+                return False
+            me.blocked_on = lambda: self.owner is None
+            me.timed = False
+            s.point(me, "lock-blocked")
+            me.blocked_on = None
+        self.owner = me
+        return True
+
+    def release(self):
+        s = self.sched
+        me = s.current()
+        self.owner = None
+        s.point(me, "lock-release")
+
+    def locked(self):
+        return self.owner is not None
+
+    def __enter__(self):
+        self.acquire()
+        return self
+
+    def __exit__(self, *a):
+        self.release()
+
+
 SCHED: Optional["Sched"] = None
 
 
@@ -163,6 +202,7 @@ class Sched:
         self.state_fn = state_fn
         self.horizon = horizon
         self.threads: List[HThread] = []
+        self.locks: List[Any] = []
         self.choices: List[int] = []
         self.points: List[Tuple[int, bool, Any, str]] = []  # (n enabled, running thread still enabled, state hash, label)
         self.aborting = False
@@ -290,6 +330,8 @@ def fake_threading(sched_getter=None):
 
     ns = types.SimpleNamespace()
     ns.Event = HEvent
+    ns.Lock = HLock
+    ns.RLock = HLock
     ns.Thread = lambda target=None, **kw: HThread(SCHED, target, f"W{len(SCHED.threads)}")
     ns.current_thread = _rt.current_thread
     return ns
